@@ -34,6 +34,7 @@ type Case struct {
 	Flag   bool            `json:"flag,omitempty"` // -a (verify) / -doublecheck (repair)
 	Usage  []string        `json:"usage,omitempty"`
 	Base   string          `json:"base,omitempty"` // index base name (default "set")
+	Dir    string          `json:"dir,omitempty"`  // name of the set directory (default "w")
 }
 
 var spC = []string{"c", "create", "C", "Create", "CREATE"}
@@ -76,7 +77,11 @@ func tail(s string) string {
 func check(c Case) (msg, key string) {
 	root := run.Scratch("c20")
 	defer os.RemoveAll(root)
-	dir := filepath.Join(root, "p", "w")
+	dn := c.Dir
+	if dn == "" {
+		dn = "w"
+	}
+	dir := filepath.Join(root, "p", dn)
 	os.MkdirAll(dir, 0o755)
 	os.MkdirAll(filepath.Join(root, "elsewhere"), 0o755)
 	if c.Usage != nil {
@@ -396,10 +401,10 @@ var states1 = []string{"intact", "symlinked-volumes", "grown-16k", "repairable",
 var usages = [][]string{{}, {"frobnicate"}, {"frobnicate", "set.par2"}, {"v"}, {"verify"}, {"r"}, {"c"}, {"c", "set.par2"}, {"create", "set.par"}, {"-bogus", "v", "set.par2"},
 	{"-g", "abc", "v", "set.par2"}, {"c", "-s", "xyz", "set.par2", "a"}, {"c", "-c", "1.5", "set.par2", "a"}, {"v", "-bogus", "set.par2"}, {"r", "-bogus", "set.par"}, {"-g"}, {"c", "-s"}}
 
-var idxBases = []string{"set", "set", "rate 5%", "my%20set", "a b", "x.y", "100%d", "q[1]"}
+var idxBases = []string{"set", "set", "rate 5%", "my%20set", "a b", "x.y", "100%d", "q[1]", "backup.part1", "x.par2", "set.par"}
 
 func mk(format, state string, i int) Case {
-	c := Case{Format: format, State: state, Spell: i, Base: idxBases[i%len(idxBases)], Cwd: []string{"set", "parent", "unrelated"}[i%3], G: []int{0, 1, 3}[i%3], Flag: i%2 == 0}
+	c := Case{Format: format, State: state, Spell: i, Base: idxBases[i%len(idxBases)], Dir: scen.DirNames[(i/2)%len(scen.DirNames)], Cwd: []string{"set", "parent", "unrelated"}[i%3], G: []int{0, 1, 3}[i%3], Flag: i%2 == 0}
 	if format == "par2" {
 		c.Slice = []int{4, 8, 64}[i%3]
 		c.Files = []scen.FileSpec{{Name: "a.dat", Size: 2*c.Slice + 1, Kind: "random", Seed: uint64(i + 1)}, {Name: "b b.bin", Size: c.Slice, Kind: "random", Seed: uint64(i + 2)}, {Name: "c.x", Size: 3 * c.Slice, Kind: "random", Seed: uint64(i + 3)}}
@@ -487,7 +492,7 @@ func TestCheck(t *testing.T) {
 	rapid.Check(t, func(rt *rapid.T) {
 		format := rapid.SampledFrom([]string{"par2", "par1"}).Draw(rt, "format")
 		c := Case{Format: format, Spell: rapid.IntRange(0, 4).Draw(rt, "spell"), Cwd: rapid.SampledFrom([]string{"set", "parent", "unrelated"}).Draw(rt, "cwd"),
-			G: rapid.SampledFrom([]int{0, 1, 2, 5}).Draw(rt, "g"), Flag: rapid.Bool().Draw(rt, "flag"), Base: rapid.SampledFrom(idxBases).Draw(rt, "base")}
+			G: rapid.SampledFrom([]int{0, 1, 2, 5}).Draw(rt, "g"), Flag: rapid.Bool().Draw(rt, "flag"), Base: rapid.SampledFrom(idxBases).Draw(rt, "base"), Dir: rapid.SampledFrom(scen.DirNames).Draw(rt, "dir")}
 		if format == "par2" {
 			c.State = rapid.SampledFrom(states2).Draw(rt, "state")
 			c.Slice = rapid.SampledFrom([]int{4, 8, 16, 64, 256}).Draw(rt, "S")
